@@ -40,7 +40,18 @@ P = {'id': 'C10',
               'fastvec_copy_refines_list',
               'fastvec_bulk_equals_scalar',
               'fastvec_copy_eq_decides',
-              'fastvec_copy_from_refuted'],
+              'fastvec_copy_from_refuted',
+              'cachevec_capacity_aligned',
+              'cachevec_refines_list',
+              'cachevec_exactly_once',
+              'cachevec_truncate_drops_tail',
+              'bumpvec_refines_bounded_vec',
+              'bumpvec_exactly_once',
+              'bitpacked_entry_roundtrip',
+              'bitpacked_refines_list',
+              'bitpacked_get_pushes',
+              'ring_pop_bulk_into_slice',
+              'ring_pop_bulk_into_agrees'],
  'consts': True,
  'trusted': ['modelled (M+S), memory = map slot -> option element (None = uninitialised / moved out; reading, moving out or dropping a None slot is '
              'the outcome UB): src/containers/specialized/circular_queue.rs AutoGrowCircularQueue (ensure_power_of_two, with_capacity, reserve, '
@@ -58,11 +69,19 @@ P = {'id': 'C10',
              'compiled with the default feature simd); src/containers/fast_vec.rs the paths taken by Copy element types (is_simd_beneficial '
              'thresholds, temporary-buffer insert/remove, fast_fill resize, bulk extend, extend_from_slice_fast, fill_range_fast, '
              'copy_from_slice_fast, ensure_capacity, PartialEq; the SIMD kernels fast_copy / fast_fill / fast_compare are parameters with their '
-             'contract as hypotheses)',
+             'contract as hypotheses); src/memory/cache.rs CacheAlignedVec<T> (new, with_capacity, reserve with '
+             'required.max(2*capacity).max(4), reallocate with the checked cache-line rounding `(n*size+63) & !63` / size and the Layout limit, '
+             'fresh block + copy + dealloc, push, pop, get, clear, truncate, Drop; size_of::<T>() is a parameter) and src/memory/bump.rs '
+             'BumpVec<T> (new_in, push with its refusal at len >= capacity, pop, as_slice().get, Drop) - coq/C10/ModelCacheVec.v, every slot access '
+             'checked against the block; src/containers/specialized/bit_packed_string_vec.rs BitPackedStringVec32/64 (BitPackedEntry packing '
+             'offset | length << 32 resp. (offset & 2^40-1) | length << 40 and the fallback accessors, push with its checks in the order of the '
+             'code - the arena is extended before the entry is validated -, get, get_bytes, len) - coq/C10/ModelBitPacked.v; AutoGrowCircularQueue::pop_bulk at the level of '
+             "the caller's slice (`output[i] = read()` destroys the overwritten value; one or two runs) - coq/C10/ModelRingBulk.v",
              'spec-only cells (shadow Vec/VecDeque oracle with per-id live-instance counting, no mechanism model): '
-             'memory::cache::CacheAlignedVec<El>/<u8>, cache_layout::CacheAlignedVec<u64>, BumpVec<El>, MmapVec<u64> (push, pop, resize, truncate, '
+             'cache_layout::CacheAlignedVec<u64>, memory::cache::CacheAlignedVec for element types other than the drop-counting handle and u8, '
+             'MmapVec<u64> (push, pop, resize, truncate, '
              'clear, extend, push_bulk_simd, pop_bulk_simd, fill_range_simd, copy_from_simd, reserve, shrink_to_fit), ZoSortedStrVec (three '
-             'constructors), BitPackedStringVec32/64, AdvancedStringVec levels 0..3; oracle-only inside modelled cells: SortableStrVec::binary_search, '
+             'constructors), AdvancedStringVec levels 0..3, BitPackedStringVec::find_simd / iter; oracle-only inside modelled cells: SortableStrVec::binary_search, '
              'the u32::MAX probe of ValVec32 on zero-sized elements, the 2^24-byte arena probe of FixedLenStrVec, the child-process probe of the '
              'FastVec operations that aborted the process',
              'not covered: src/containers/specialized/circular_queue_ultrafast.rs is not part of the crate (no `mod` declaration; it uses '
@@ -76,7 +95,8 @@ P = {'id': 'C10',
              'comparator is a total preorder (inhabited by insertion sort, which is what the model runs); str::from_utf8 accepts well-formed UTF-8 '
              '(modelled by an RFC 3629 validator); the SIMD kernels copy / fill / compare exactly (property C14); malloc_usable_size reports at '
              'least the requested size'],
- 'assumptions': ['usize is 64 bits; the ring theorems bound the history at 2^61 elements (allocation would fail long before); the ValVec32, '
+ 'assumptions': ['usize is 64 bits; the ring theorems bound the history at 2^61 elements and the CacheAlignedVec theorems at 2^60 bytes (allocation '
+                 'would fail long before; cache-line alignment only, element alignment <= 64); the ValVec32, '
                  'string-vector and FastVec theorems need no size bound (the u32 / 20-bit / 24-bit / 40-bit limits are part of the model and '
                  'refusals are part of the specification)',
                  'realloc/malloc succeed and preserve contents (allocator is not modelled)',
@@ -97,7 +117,15 @@ P = {'id': 'C10',
                'are first-index and prefix-count. FastVec for Copy types: the SIMD / bulk paths are, for every element size and every kernel meeting '
                'its contract, the list functions of the scalar path (same value, len, capacity and buffer), fill_range_fast and copy_from_slice_fast '
                "are splice and assignment, PartialEq decides equality; the pinned tree's process abort in ensure_capacity is a refutation theorem. "
-               'The models are tied to the code by replaying enumerated and generated histories in Coq (about 1500 per quick run) and comparing '
+               'memory::cache::CacheAlignedVec (any element size): the cache-line capacity arithmetic covers the request with less than 64 bytes of '
+               'slack, every history of push/pop/get/clear/truncate/reserve that fits 2^60 bytes behaves as a Vec without any refusal, and every '
+               'pushed element is handed back or destroyed exactly once over history + Drop; BumpVec: a Vec bounded by its fixed capacity (push '
+               'refused exactly when full, the refused value destroyed), exactly-once destruction. '
+               'BitPackedStringVec32/64: the packed entries read back what was packed, get i is the i-th accepted string for every history (64-bit '
+               'variant: below 2^40 bytes, the width of its unchecked offset mask), refusals exactly at the limits. '
+               "pop_bulk into a slice: the first min(|out|, len) slots receive the queue's front in order and exactly the overwritten values are "
+               'destroyed, once each. '
+               'The models are tied to the code by replaying enumerated and generated histories in Coq (about 1700 per quick run) and comparing '
                'every return value, the multiset of destroyed elements, len, capacity, head/tail indices, strings and sorted views. The remaining '
                'containers are decided by a boundary-biased differential oracle only (S-only). The oracle also drives, inside the same histories, the '
                'secondary entry points (aliases, ==, Debug, Index/IndexMut/get_mut/as_mut_slice/iter_mut, iterators, filling and preset constructors, '
@@ -110,5 +138,6 @@ P = {'id': 'C10',
               'standard contract plus uniqueness of sorted permutations; symbolic refutation for a 2^32-element witness; constants regenerated from '
               'the source; model/implementation differential check on operation histories by vm_compute; differential oracle with drop-counting '
               'elements for all cells; child-process probes for operations that may abort',
- 'explanation': 'Unbounded refinement theorems for both circular queues, FastVec (drop and Copy paths), ValVec32, SortableStrVec and FixedLenStrVec; '
+ 'explanation': 'Unbounded refinement theorems for both circular queues, FastVec (drop and Copy paths), ValVec32, SortableStrVec, FixedLenStrVec, '
+                'memory::cache::CacheAlignedVec, BumpVec and BitPackedStringVec32/64; '
                 'differential oracle for the other containers.'}
